@@ -52,29 +52,52 @@ def poolLabel (c : Choice) (st : St) (a : Act) (r : Nat) : Option Label :=
                             | none => none))
   | _ => none
 
-/-- Walk the statements of a row as `Parser.runActs` does, issuing pool labels; result: the pool
-    state and the labels issued; `none` = a pool step was not enabled. -/
-def driveActs (c : Choice) : List Act → Nat → PState → St → List Label → Option (St × List Label)
-  | [], _, _, st, ls => some (st, ls)
-  | .retIfIgnoreST _ :: rest, r, s, st, ls => if s.ignoreST then some (st, ls) else driveActs c rest r s st ls
-  | a :: rest, r, s, st, ls =>
-    match poolLabel c st a r with
-    | none => driveActs c rest r (applyAct a r s).1 st ls
+/-- Ghost record of one hand-over: what the automaton's `p.intermediate` (the list `inter` of
+    `Model/Parser.lean`, which goes into the `ESC`/`CSI`/`DCS` value built by the statement) reads at a
+    dispatch that transfers the slice, and what the pool model's slice reads there (= the snapshot of
+    the delivered record: `Props.C08Pools.snapshot_taken_at_delivery`). -/
+structure View where
+  auto : List Nat
+  slice : List Nat
+  deriving DecidableEq, Repr, Inhabited
+
+/-- The accumulated result of walking statements: pool state, labels issued, hand-overs seen. -/
+structure Acc where
+  st : St := {}
+  ls : List Label := []
+  views : List View := []
+  deriving Repr, Inhabited
+
+def isDispatchLabel : Label → Bool
+  | .dispatch _ => true
+  | _ => false
+
+/-- Walk the statements of a row as `Parser.runActs` does, issuing pool labels; `none` = a pool step
+    was not enabled. -/
+def driveActs (c : Choice) : List Act → Nat → PState → Acc → Option Acc
+  | [], _, _, acc => some acc
+  | .retIfIgnoreST _ :: rest, r, s, acc => if s.ignoreST then some acc else driveActs c rest r s acc
+  | a :: rest, r, s, acc =>
+    match poolLabel c acc.st a r with
+    | none => driveActs c rest r (applyAct a r s).1 acc
     | some l =>
-      match ParserPools.step .code st l with
+      match ParserPools.step .code acc.st l with
       | none => none
-      | some st' => driveActs c rest r (applyAct a r s).1 st' (ls ++ [l])
+      | some st' =>
+        driveActs c rest r (applyAct a r s).1
+          { st := st', ls := acc.ls ++ [l],
+            views := if isDispatchLabel l then acc.views ++ [⟨s.inter, contents acc.st⟩] else acc.views }
 
 /-- One input rune: `anywhere(r, p)`, then — if it passes the rune on — the state function. -/
-def driveRune (T : Table) (c : Choice) (s : PState) (st : St) (r : Nat) : Option (St × List Label) :=
-  match driveActs c (T.anywhere.row (.rune r)).1 r s st [] with
+def driveRune (T : Table) (c : Choice) (s : PState) (acc : Acc) (r : Nat) : Option Acc :=
+  match driveActs c (T.anywhere.row (.rune r)).1 r s acc with
   | none => none
-  | some (st1, l1) =>
+  | some acc1 =>
     match (runFn T.anywhere (.rune r) s).2.2 with
     | .dispatch =>
       let s1 := (runFn T.anywhere (.rune r) s).1
-      driveActs c ((T.fn s1.state).row (.rune r)).1 r s1 st1 l1
-    | _ => some (st1, l1)
+      driveActs c ((T.fn s1.state).row (.rune r)).1 r s1 acc1
+    | _ => some acc1
 
 inductive DLabel
   | rune (r : Nat) (c : Choice)   -- the parser reads a rune
@@ -83,26 +106,27 @@ inductive DLabel
 
 structure DSt where
   ps : PState := {}
-  pool : St := {}
+  /-- pool state, the pool-model labels issued so far, the hand-overs so far -/
+  acc : Acc := {}
   /-- everything delivered on the channel so far -/
   out : List Seq := []
-  /-- the pool-model labels issued so far -/
-  trace : List Label := []
   deriving Repr, Inhabited
 
 def DSt.init : DSt := {}
+abbrev DSt.pool (d : DSt) : St := d.acc.st
+abbrev DSt.trace (d : DSt) : List Label := d.acc.ls
 
 def dstep (T : Table) (d : DSt) : DLabel → Option DSt
   | .rune r c =>
-    match driveRune T c d.ps d.pool r with
+    match driveRune T c d.ps d.acc r with
     | none => none
-    | some (st', ls) =>
+    | some acc' =>
       let o := Parser.step T d.ps (.rune r)
-      some { ps := o.st, pool := st', out := d.out ++ o.out, trace := d.trace ++ ls }
+      some { ps := o.st, acc := acc', out := d.out ++ o.out }
   | .finish k =>
-    match ParserPools.step .code d.pool (.finish k) with
+    match ParserPools.step .code d.acc.st (.finish k) with
     | none => some d
-    | some st' => some { d with pool := st', trace := d.trace ++ [.finish k] }
+    | some st' => some { d with acc := { d.acc with st := st', ls := d.acc.ls ++ [.finish k] } }
 
 def drun (T : Table) : DSt → List DLabel → Option DSt
   | d, [] => some d
